@@ -258,6 +258,153 @@ def _hdr_after_history(a) -> SpacePacketHeader:
     return got["obj"]
 
 
+# ---- the last clause of the property on a header that REACHED out-of-range values (key "hist" with "refused": true; the case's
+#      APID / sequence count / data length lie outside their ranges, the model refuses them): the header is obtained with in-range
+#      values, looked at, then given the case's values through the same steps as above. "Refused with ValueError instead of being
+#      encoded": EITHER the assignment itself raises a ValueError (then the header still shows what it showed before that
+#      assignment) OR pack() of the header raises a ValueError - it never returns octets and never raises anything else; the same
+#      for what packs a header: a generic SpacePacket around it, a PusTc / PusTm given the value through tc.apid / tc.seq_count /
+#      tm.apid / the setters of its header. What raw() of a part shows that holds such a value is not claimed ----
+_RANGE = {"apid": 2047, "count": 16383, "dlen": 65535}
+
+
+class _Refused(Exception):
+    def __init__(self, key, error, cur):
+        super().__init__(str(error))
+        self.key, self.error, self.cur = key, error, cur
+
+
+def _is_value_error(e: BaseException) -> bool:
+    return "value" in core.exc_categories(e)
+
+
+def _must_refuse(pack, what: str, holds: str):
+    """`pack()` raises a ValueError-family exception (returned to the caller); octets or another exception are findings"""
+    try:
+        raw = pack()
+    except (SelfCheckFailure, core.InfraError):
+        raise
+    except Exception as e:  # noqa
+        if _is_value_error(e):
+            return e
+        raise SelfCheckFailure(f"{what} of a header that holds {holds} raises {type(e).__name__} ({str(e)[:80]}) - the property names "
+                               f"ValueError for a value outside its range")
+    raise SelfCheckFailure(f"{what} of a header that holds {holds} returns the octets {bytes(raw).hex()[:60]} - a value outside its range is "
+                           f"refused with ValueError instead of being encoded")
+
+
+def _hdr_mutate_refused(h: SpacePacketHeader, old, new, path):
+    """like _hdr_mutate, assignment by assignment; a ValueError of an assignment ends the history (_Refused) - `cur` are the
+    values the header holds at that point"""
+    cur = dict(old)
+
+    def assign(target, attr, k):
+        try:
+            setattr(target, attr, _CONV[k](new[k]))
+        except (AttributeError, TypeError):
+            return False
+        except Exception as e:  # noqa
+            if _is_value_error(e):
+                raise _Refused(k, e, dict(cur))
+            raise
+        cur[k] = new[k]
+        return True
+
+    def header_attr(k):
+        if not assign(h, _HDR_ATTR[k], k) and k != "version":
+            raise AttributeError(f"SpacePacketHeader.{_HDR_ATTR[k]} cannot be assigned")
+    for step in path:
+        keys = HDR_STEPS[step]
+        if step in ("packet_id", "packet_seq_control"):
+            # a part built with the values that CAN be built (an out-of-range one keeps what the header holds), then the rest
+            ok = lambda k, v: k not in _RANGE or 0 <= v <= _RANGE[k]      # noqa: E731
+            safe = {k: (new[k] if ok(k, new[k]) else cur[k] if ok(k, cur[k]) else old[k]) for k in ("ptype", "shf", "apid", "flags", "count")}
+            if core.tolerant_set(h, step, _pid_of(safe) if step == "packet_id" else _psc_of(safe)):
+                for k in keys:
+                    cur[k] = safe[k]
+                part = h.packet_id if step == "packet_id" else h.packet_seq_control
+                for k in keys:
+                    if cur[k] != new[k] and not assign(part, _PART_ATTR[k], k):
+                        header_attr(k)
+            else:
+                for k in keys:
+                    header_attr(k)
+        elif "." in step:
+            k = keys[0]
+            if not assign(h.packet_id if step.startswith("pid.") else h.packet_seq_control, _PART_ATTR[k], k):
+                header_attr(k)
+        else:
+            header_attr(keys[0])
+    for k in HDR_KEYS:
+        if cur[k] != new[k]:
+            header_attr(k)
+    return cur
+
+
+def _hdr_refused_history(a):
+    """returns the ValueError with which the implementation refuses (the op raises it: compared with the model's refusal)"""
+    h = a["hist"]
+    old = {k: h["from"][k] for k in HDR_KEYS}
+    if not _version_settable():
+        old["version"] = a["version"]
+    src = h.get("source", "ctor")
+    bad = {k: a[k] for k in _RANGE if not 0 <= a[k] <= _RANGE[k]}
+    holds = ", ".join(f"{_HDR_ATTR[k]} = {v}" for k, v in bad.items()) + f" (given through {h.get('path')} after {src} with {old})"
+    if src == "unpack":
+        obj = SpacePacketHeader.unpack(_spec_words(old) + b"\x99")
+    elif src == "composite":
+        obj = SpacePacketHeader.from_composite_fields(_pid_of(old), _psc_of(old), old["dlen"], old["version"])
+    else:
+        obj = _hdr(old)
+    core.read_views(obj, _hdr_views(old), h.get("read"))
+    try:
+        _hdr_mutate_refused(obj, old, a, h.get("path") or [])
+    except _Refused as r:
+        # refused at the assignment: the header is what it was before that assignment (the values assigned so far), it packs,
+        # and what it packs is the standard's encoding of those values
+        now = _fields(obj)
+        want = dict(r.cur, packet_len=r.cur["dlen"] + 7)
+        raw = bytes(obj.pack())
+        if now != want or raw != _spec_words(r.cur):
+            raise SelfCheckFailure(f"the assignment of {_HDR_ATTR[r.key]} = {a[r.key]} was refused ({type(r.error).__name__}); the header held "
+                                   f"{want} before it, now it shows {now} and packs {raw.hex()}")
+        return r.error
+    err = _must_refuse(obj.pack, "SpacePacketHeader.pack()", holds)
+    _must_refuse(SpacePacket(obj, b"\x01\x02", b"\x03").pack, "SpacePacket(header, ...).pack()", holds)
+    return err
+
+
+def _carrier_refused(a):
+    """key "carrier" of a refusal history: "tc" / "tm" - a PUS telecommand / telemetry packet built with in-range values is given the
+    out-of-range APID / sequence count through its own setters (tc.apid, tc.seq_count, tm.apid) or the setters of its header:
+    refused at the assignment, or at pack()"""
+    from spacepackets.ecss.tc import PusTc
+    from spacepackets.ecss.tm import PusTm
+    h = a["hist"]
+    old = h["from"]
+    if h["carrier"] == "tc":
+        pkt = PusTc(service=17, subservice=1, apid=old["apid"], seq_count=old["count"], app_data=b"\x01\x02")
+    else:
+        pkt = PusTm(service=17, subservice=2, apid=old["apid"], seq_count=old["count"], timestamp=bytes(7), source_data=b"\x03")
+    if h.get("read") is None or h.get("read"):
+        bytes(pkt.pack())
+    bad = {k: a[k] for k in ("apid", "count") if not 0 <= a[k] <= _RANGE[k]}
+    names = {"apid": "apid", "count": "seq_count"}
+    for k in ("apid", "count"):
+        if old[k] == a[k]:
+            continue
+        target = pkt if (h.get("via") == "packet" and core._class_data_names(type(pkt))[2].count(names[k])) else pkt.sp_header
+        try:
+            setattr(target, names[k], a[k])
+        except Exception as e:  # noqa
+            if _is_value_error(e):
+                return e
+            raise
+    what = "PusTc" if h["carrier"] == "tc" else "PusTm"
+    return _must_refuse(pkt.pack, f"{what}.pack()", ", ".join(f"{names[k]} = {v}" for k, v in bad.items())
+                        + f" (assigned through the setters of the {'packet' if h.get('via') == 'packet' else 'header of the packet'})")
+
+
 def _part_after_history(a, kind: str):
     """kind "pid" / "psc": the part obtained with the old values from `source` - "ctor", "from_raw", "copy" (copy.copy of one whose
     raw() was read), "header" (handed out by a header built with the old values) - and changed through its own attributes
@@ -325,7 +472,11 @@ def op_sph_new(a):
 
 
 def op_sph_pack(a):
-    h = _hdr_after_history(a) if a.get("hist") else _hdr(a)
+    hist = a.get("hist") or {}
+    if hist.get("refused") and any(not 0 <= a[k] <= _RANGE[k] for k in _RANGE):
+        # (a refusal history; with in-range values - a minimiser lowering them - it is an ordinary history)
+        raise (_carrier_refused(a) if hist.get("carrier") else _hdr_refused_history(a))
+    h = _hdr_after_history(a) if hist and not hist.get("carrier") else _hdr(a)
     # (packs twice, the caller modifying the first returned buffer in between)
     raw = core.pack_stable(h, "SpacePacketHeader.pack()")
     h2 = SpacePacketHeader.unpack(raw)
@@ -597,6 +748,46 @@ class C01(Prop):
                         rng.shuffle(after)
                         hist = {"from": old, "source": src, "path": path, "read": rd, "after": after}
                         yield Case({"op": ("sph_pack", "sph_new")[k % 2], **a, "hist": hist}, "valid", tag="read-set-read")
+        # --- the same histories with FINAL values outside their ranges (key "refused", see _hdr_refused_history): refused with
+        #     ValueError at the assignment or by pack() - of the header, of a generic packet around it, of a PUS packet ---
+        bad_values = {"apid": [2048, 0x805, 0x12345, -1], "count": [16384, 0x4007, -1], "dlen": [65536, 70000, -1]}
+        for rep in range(6 if thorough else 1):
+            for bk, vals in bad_values.items():
+                for bv in vals + ([rng.choice(out_pool(tops[bk], rng))] if rep else []):
+                    for way in ways[bk]:
+                        for src in ("ctor", "unpack", "composite"):
+                            for rd in (None, ["pack"], ["pid_raw", "psc_raw"], []):
+                                for alone in (True, False):
+                                    k += 1
+                                    a = rand_hdr(rng)
+                                    old = dict(a) if alone else old_for(a, HDR_KEYS, "some")
+                                    old[bk] = a[bk]
+                                    a[bk] = bv
+                                    path = [way]
+                                    for x in HDR_KEYS:
+                                        if x != bk and old[x] != a[x]:
+                                            path.insert(rng.randint(0, len(path)), rng.choice(ways[x]))
+                                    if not alone and k % 5 == 0:
+                                        # a second field out of range
+                                        bk2 = rng.choice([x for x in bad_values if x != bk])
+                                        old[bk2], a[bk2] = a[bk2] if 0 <= a[bk2] <= tops[bk2] else 1, rng.choice(bad_values[bk2])
+                                        path.insert(rng.randint(0, len(path)), rng.choice(ways[bk2]))
+                                    hist = {"from": old, "source": src, "path": path, "read": rd, "refused": True}
+                                    yield Case({"op": "sph_pack", **a, "hist": hist}, "invalid", errclass=True, tag="read-set-refused")
+            for carrier in ("tc", "tm"):
+                for bk in ("apid", "count"):
+                    for bv in bad_values[bk]:
+                        for via in ("packet", "header"):
+                            for rd in (None, []):
+                                a = rand_hdr(rng)
+                                a.update(version=0, ptype=1 if carrier == "tc" else 0, shf=1, flags=3)
+                                old = dict(a)
+                                a[bk] = bv
+                                if rng.random() < 0.5:
+                                    other_k = "count" if bk == "apid" else "apid"
+                                    old[other_k] = other(other_k, a[other_k])
+                                hist = {"from": old, "carrier": carrier, "via": via, "read": rd, "refused": True}
+                                yield Case({"op": "sph_pack", **a, "hist": hist}, "invalid", errclass=True, tag="carrier-set-refused")
         part_reads = [None, ["raw"], ["eq"], ["hash"], ["in_header", "fields"], []]
         for rep in range(12 if thorough else 2):
             for kind, keys, names in (("pid", ["ptype", "shf", "apid"], PID_VIEW_NAMES), ("psc", ["flags", "count"], PSC_VIEW_NAMES)):
